@@ -248,6 +248,10 @@ func observedOutcomes(ans *vrun.Answer) map[string]string {
 		switch e.Kind {
 		case "signal", "ctx-done":
 			interrupted[e.Key] = true
+		case "deploy-fail":
+			if e.Phase == "run" {
+				obs["deploy-fail:"+e.Key] = "1" // e.g. a deployment aborted by the cancellation
+			}
 		case "exec-end":
 			if interrupted[e.Key] {
 				if pl, ok := e.Payload.(map[string]any); ok {
